@@ -17,3 +17,6 @@ CHECKS["C16"] = props_rel.check_c16
 
 from harness import props_c11
 CHECKS["C11"] = props_c11.check
+
+from harness import props_c12
+CHECKS["C12"] = props_c12.check
